@@ -93,12 +93,19 @@ def end_steps(how):
     raise ValueError(how)
 
 
-def end_case(verb, place, how, pool=True, sessions=0, size=None, rest=None, listen="PASV"):
+def end_case(verb, place, how, pool=True, sessions=0, size=None, rest=None, listen="PASV", slow_close=False):
+    """slow_close: the back-end close() that the unwinding worker performs is slow as well (it is released after the
+    end): the dispatcher must wait for its cancelled tasks, Server.close() must not return before they are done"""
     steps, gates, files, block, payload = xfer.transfer_setup(verb, place, size=size, rest=rest, listen=listen)
-    steps = steps + [["snap", "held"]] + end_steps(how) + [["snap", "ended"]]
+    steps = steps + [["snap", "held"]] + end_steps(how)
+    if slow_close:
+        gates = gates + [["close", 1]]
+        steps = steps + [["snap", "unwinding"], ["release", "close"]]
+    steps = steps + [["snap", "ended"]]
     case = {
         "verb": verb, "place": list(place), "how": how, "steps": steps, "gates": gates, "pool": pool, "files": files,
         "payload": payload, "block": block, "sessions": sessions, "wait_future_timeout": 50, "listen": listen,
+        "slow_close": slow_close,
     }
     if place[0] == "bind":
         case["bind_gate"] = place[1]
@@ -218,7 +225,9 @@ def run_cases(ctx, cases, facts, stream):
     xs, oi = [], 0
     for case, r, q in runs:
         how = case["how"]
-        ctx.case((stream, case.get("script"), case["verb"], tuple(case["place"]), how, case["pool"], case["sessions"], case.get("listen")))
+        ctx.case((stream, case.get("script"), case["verb"], tuple(case["place"]), how, case["pool"], case["sessions"], case.get("listen"), case.get("slow_close")))
+        if case.get("slow_close"):
+            ctx.count("slow_close")
         ctx.count(f"how:{how}")
         ctx.count("stream:" + stream)
         if stream == "stage":
@@ -302,6 +311,9 @@ def stage_cases(thorough):
                         cases.append(end_case(verb, place, how, pool=pool, sessions=sessions))
         for how in HOWS:
             cases.append(end_case(verb, ("gate", "seek", 1), how, rest=2))
+            if verb in ("RETR", "STOR", "APPE"):
+                cases.append(end_case(verb, ("gate", "read" if verb == "RETR" else "write", 2), how, slow_close=True))
+                cases.append(end_case(verb, ("sent", 5) if verb != "RETR" else ("gate", "seek", 1), how, slow_close=True, rest=1))
     for listen in ("PASV", "EPSV"):
         for where in ("login", "pasv", "pasv_dconn"):
             for how in HOWS:
